@@ -1,1 +1,264 @@
-//! c20 — harnesses not written yet.
+//! C20 — chemical-reaction steps conserve energy and keep molecules aligned.
+//! Code: mahf::components::misc::cro::{SynthesisUpdate,OnWallIneffectiveCollisionUpdate,DecompositionUpdate,IntermolecularIneffectiveCollisionUpdate}::execute, Molecule::{new,update_best}, ChemicalReaction, EnergyBuffer
+//! Out: populations above 3; energies above 2^20; two EQUAL individuals in the population (the reactant is located by equality, the statement does not cover duplicates); for the three reactions that split energy with a random factor (x*alpha and x*(1-alpha), two symbolic 64-bit products) conservation up to rounding is NOT decided — only that each part is non-negative and that a rejected reaction changes no energy; synthesis (no random factor) is decided bit-exactly
+//! Assume: inductive one-step from an arbitrary consistent CRO state: population of unique tagged individuals with symbolic objective values in [0, 2^20], one molecule per individual with symbolic kinetic energy in [0, 2^20], symbolic buffer in [0, 2^20], stack = [population, reactants, products]
+use mahf::components::misc::cro::{
+    ChemicalReaction, DecompositionUpdate, EnergyBuffer, IntermolecularIneffectiveCollisionUpdate, Molecule,
+    OnWallIneffectiveCollisionUpdate, SynthesisUpdate,
+};
+use mahf::components::Component;
+use mahf::state::common::Populations;
+use mahf::{Individual, State};
+
+use crate::problems::{obj, TagP};
+use crate::rng::sym_random;
+use crate::sym;
+
+const BIG: f64 = 1048576.0;
+type Ind = Individual<TagP>;
+
+fn energy() -> f64 {
+    let x = sym::f64();
+    sym::assume(x >= 0.0 && x <= BIG);
+    x
+}
+
+struct Pre {
+    o: [f64; 3],
+    ke: [f64; 3],
+    buffer: f64,
+}
+
+/// State with population [tag 0, tag 1, tag 2][..n], molecules, buffer, and the given reactant /
+/// product populations on top.
+fn cro_state(n: usize, reactants: &[usize], products: &[(u8, f64)], budget: u32) -> (State<'static, TagP>, Pre) {
+    let mut pre = Pre { o: [0.0; 3], ke: [0.0; 3], buffer: energy() };
+    let mut pop = Vec::with_capacity(4);
+    let mut mols = Vec::with_capacity(4);
+    let mut i = 0;
+    while i < n {
+        pre.o[i] = energy();
+        pre.ke[i] = energy();
+        pop.push(Individual::new(i as u8, obj(pre.o[i])));
+        mols.push(Molecule::new(pre.ke[i], Individual::new(i as u8, obj(pre.o[i]))));
+        i += 1;
+    }
+    let mut r = Vec::with_capacity(2);
+    let mut k = 0;
+    while k < reactants.len() {
+        r.push(Individual::new(reactants[k] as u8, obj(pre.o[reactants[k]])));
+        k += 1;
+    }
+    let mut p = Vec::with_capacity(2);
+    let mut k = 0;
+    while k < products.len() {
+        p.push(Individual::new(products[k].0, obj(products[k].1)));
+        k += 1;
+    }
+    let mut pops = Populations::<TagP>::new();
+    pops.push(pop);
+    pops.push(r);
+    pops.push(p);
+    let mut s: State<TagP> = State::new();
+    s.insert(EnergyBuffer(pre.buffer));
+    s.insert(ChemicalReaction::<TagP>(mols));
+    s.insert(sym_random(budget));
+    s.insert(pops);
+    (s, pre)
+}
+
+/// Molecule records stay aligned with the population: same length, record i belongs to
+/// individual i (its best solution carries the individual's tag unless the record is older and
+/// better), energies non-negative.
+fn aligned(s: &State<'static, TagP>, want_len: usize) {
+    let p = s.populations();
+    assert!(p.len() == 1, "the reactant and product populations are consumed: exactly the population is left");
+    let re = s.borrow::<ChemicalReaction<TagP>>();
+    assert!(p.current().len() == want_len && re.len() == want_len, "exactly one molecule record per individual");
+    let mut i = 0;
+    while i < want_len {
+        assert!(re[i].kinetic_energy >= 0.0, "no molecule is left with negative kinetic energy");
+        i += 1;
+    }
+    assert!(s.get_value::<EnergyBuffer>() >= 0.0, "the buffer is never negative");
+}
+
+// ---- synthesis: deterministic, decided bit-exactly -------------------------------------------------------
+
+fn synthesis(r1: usize, r2: usize) {
+    let op = energy();
+    let (mut s, pre) = cro_state(3, &[r1, r2], &[(9, op)], 0);
+    let r = Component::<TagP>::execute(&SynthesisUpdate::from_params(), &TagP, &mut s);
+    assert!(r.is_ok(), "synthesis succeeds on a consistent state");
+    let e_r = (pre.o[r1] + pre.ke[r1]) + (pre.o[r2] + pre.ke[r2]);
+    let other = 3 - r1 - r2;
+    if e_r >= op {
+        aligned(&s, 2);
+        let p = s.populations();
+        let re = s.borrow::<ChemicalReaction<TagP>>();
+        // the product replaces r1, r2 is removed, the third individual keeps its record
+        let i_prod = if r2 < r1 { r1 - 1 } else { r1 };
+        let i_other = if other > r2 { other - 1 } else { other };
+        assert!(*p.current()[i_prod].solution() == 9 && *p.current()[i_other].solution() == other as u8, "the product takes the first reactant's place, the second reactant is removed, the rest keeps its order");
+        assert!(*re[i_prod].best.solution() == 9, "the product's molecule record sits at the product's index");
+        assert!(re[i_prod].kinetic_energy.to_bits() == (e_r - op).to_bits(), "the product's kinetic energy is the reactants' total energy minus its own objective value (energy is conserved)");
+        assert!(*re[i_other].best.solution() == other as u8 && re[i_other].kinetic_energy.to_bits() == pre.ke[other].to_bits(), "the uninvolved molecule keeps its record and energy");
+        assert!(s.get_value::<EnergyBuffer>().to_bits() == pre.buffer.to_bits(), "synthesis does not touch the buffer");
+    } else {
+        aligned(&s, 3);
+        let re = s.borrow::<ChemicalReaction<TagP>>();
+        let mut i = 0;
+        while i < 3 {
+            assert!(re[i].kinetic_energy.to_bits() == pre.ke[i].to_bits() && *re[i].best.solution() == i as u8, "a rejected synthesis changes nothing");
+            assert!(*s.populations().current()[i].solution() == i as u8, "population unchanged");
+            i += 1;
+        }
+    }
+    vcover!(e_r >= op, "accepted");
+    vcover!(e_r < op, "rejected");
+    std::mem::forget(s);
+}
+macro_rules! hsyn {
+    ($name:ident, $a:expr, $b:expr) => {
+        #[cfg_attr(kani, kani::proof)]
+        #[cfg_attr(kani, kani::unwind(6))]
+        pub fn $name() {
+            synthesis($a, $b)
+        }
+    };
+}
+// @h tier=quick bound="population 3, reactants (0,1), all energies in [0,2^20]" unwind=6 cost=5 mem=12 timeout=900
+hsyn!(h_c20_synthesis_0_1, 0, 1);
+// @h tier=quick bound="population 3, reactants (2,0) (second reactant before the first), all energies in [0,2^20]" unwind=6 cost=5 mem=12 timeout=900
+hsyn!(h_c20_synthesis_2_0, 2, 0);
+// @h tier=quick bound="population 3, reactants (1,2)" unwind=6 cost=5 mem=12 timeout=900
+hsyn!(h_c20_synthesis_1_2, 1, 2);
+// @h tier=thorough bound="population 3, reactants (2,1)" unwind=6 cost=6 mem=16 timeout=1800
+hsyn!(h_c20_synthesis_2_1, 2, 1);
+
+// ---- on-wall ineffective collision -----------------------------------------------------------------------------
+
+fn on_wall(ridx: usize) {
+    let op = energy();
+    let (mut s, pre) = cro_state(2, &[ridx], &[(9, op)], 3);
+    let c = OnWallIneffectiveCollisionUpdate::from_params(0.5);
+    let r = Component::<TagP>::execute(&c, &TagP, &mut s);
+    assert!(r.is_ok(), "on-wall collision succeeds on a consistent state");
+    aligned(&s, 2);
+    let other = 1 - ridx;
+    let e_r = pre.o[ridx] + pre.ke[ridx];
+    {
+        let p = s.populations();
+        let re = s.borrow::<ChemicalReaction<TagP>>();
+        assert!(re[ridx].num_hit == 1 && re[other].num_hit == 0, "only the reactant's hit counter advances");
+        assert!(*p.current()[other].solution() == other as u8 && re[other].kinetic_energy.to_bits() == pre.ke[other].to_bits(), "the uninvolved molecule is untouched");
+        if e_r >= op {
+            assert!(*p.current()[ridx].solution() == 9, "an accepted collision replaces the reactant by the product, in place");
+            assert!(s.get_value::<EnergyBuffer>() >= pre.buffer, "the buffer only receives energy in this reaction");
+        } else {
+            assert!(*p.current()[ridx].solution() == ridx as u8 && re[ridx].kinetic_energy.to_bits() == pre.ke[ridx].to_bits(), "a rejected collision changes no energy and keeps the reactant");
+            assert!(s.get_value::<EnergyBuffer>().to_bits() == pre.buffer.to_bits(), "buffer unchanged on rejection");
+        }
+    }
+    vcover!(e_r >= op, "accepted");
+    vcover!(e_r < op, "rejected");
+    std::mem::forget((s, c));
+}
+/// @h tier=quick bound="population 2, reactant index 1, kinetic_energy_lr 0.5, all energies in [0,2^20], all draw sequences within 3 draws" unwind=6 cost=7 mem=16 timeout=1200
+#[cfg_attr(kani, kani::proof)]
+#[cfg_attr(kani, kani::unwind(6))]
+pub fn h_c20_onwall_1() {
+    on_wall(1)
+}
+/// @h tier=thorough bound="population 2, reactant index 0" unwind=6 cost=8 mem=20 timeout=2400
+#[cfg_attr(kani, kani::proof)]
+#[cfg_attr(kani, kani::unwind(6))]
+pub fn h_c20_onwall_0() {
+    on_wall(0)
+}
+
+// ---- intermolecular ineffective collision ---------------------------------------------------------------------------------
+
+/// @h tier=quick bound="population 2, reactants (1,0), products 8 and 9, all energies in [0,2^20], all draw sequences within 3 draws" unwind=6 cost=7 mem=16 timeout=1200
+#[cfg_attr(kani, kani::proof)]
+#[cfg_attr(kani, kani::unwind(6))]
+pub fn h_c20_intermolecular() {
+    let (op1, op2) = (energy(), energy());
+    let (mut s, pre) = cro_state(2, &[1, 0], &[(8, op1), (9, op2)], 3);
+    let r = Component::<TagP>::execute(&IntermolecularIneffectiveCollisionUpdate::from_params(), &TagP, &mut s);
+    assert!(r.is_ok(), "intermolecular collision succeeds on a consistent state");
+    aligned(&s, 2);
+    let e_r = (pre.o[1] + pre.ke[1]) + (pre.o[0] + pre.ke[0]);
+    {
+        let p = s.populations();
+        let re = s.borrow::<ChemicalReaction<TagP>>();
+        assert!(re[0].num_hit == 1 && re[1].num_hit == 1, "both reactants' hit counters advance");
+        if e_r - (op1 + op2) >= 0.0 {
+            assert!(*p.current()[1].solution() == 8 && *p.current()[0].solution() == 9, "each product takes the place of its reactant");
+        } else {
+            assert!(*p.current()[0].solution() == 0 && *p.current()[1].solution() == 1, "a rejected collision keeps the reactants");
+            assert!(re[0].kinetic_energy.to_bits() == pre.ke[0].to_bits() && re[1].kinetic_energy.to_bits() == pre.ke[1].to_bits(), "and changes no energy");
+        }
+        assert!(s.get_value::<EnergyBuffer>().to_bits() == pre.buffer.to_bits(), "the buffer is not involved");
+    }
+    vcover!(e_r - (op1 + op2) >= 0.0, "accepted");
+    vcover!(e_r - (op1 + op2) < 0.0, "rejected");
+    std::mem::forget(s);
+}
+
+// ---- decomposition ------------------------------------------------------------------------------------------------------------
+
+/// @h tier=quick bound="population 2, reactant index 0, products 8 and 9, all energies in [0,2^20], all draw sequences within 5 draws" unwind=8 cost=8 mem=20 timeout=1500
+#[cfg_attr(kani, kani::proof)]
+#[cfg_attr(kani, kani::unwind(8))]
+pub fn h_c20_decomposition() {
+    let (op1, op2) = (energy(), energy());
+    let (mut s, pre) = cro_state(2, &[0], &[(8, op1), (9, op2)], 5);
+    let r = Component::<TagP>::execute(&DecompositionUpdate::from_params(), &TagP, &mut s);
+    assert!(r.is_ok(), "decomposition succeeds on a consistent state");
+    let grown = s.populations().current().len() == 3;
+    aligned(&s, if grown { 3 } else { 2 });
+    {
+        let p = s.populations();
+        let re = s.borrow::<ChemicalReaction<TagP>>();
+        if grown {
+            assert!(*p.current()[0].solution() == 8 && *p.current()[2].solution() == 9 && *p.current()[1].solution() == 1, "the first product replaces the reactant, the second is appended, the rest keeps its place");
+            assert!(*re[0].best.solution() == 8 && *re[2].best.solution() == 9 && *re[1].best.solution() == 1, "molecule records follow their individuals");
+            assert!(s.get_value::<EnergyBuffer>() <= pre.buffer, "the buffer only gives energy in this reaction");
+            if (pre.o[0] + pre.ke[0]) >= op1 + op2 {
+                assert!(s.get_value::<EnergyBuffer>().to_bits() == pre.buffer.to_bits(), "enough own energy: the buffer is untouched");
+            }
+        } else {
+            assert!((pre.o[0] + pre.ke[0]) < op1 + op2, "a decomposition with enough own energy is never aborted");
+            assert!(*p.current()[0].solution() == 0 && re[0].kinetic_energy.to_bits() == pre.ke[0].to_bits() && re[0].num_hit == 1, "an aborted decomposition changes no energy and counts a hit");
+            assert!(s.get_value::<EnergyBuffer>().to_bits() == pre.buffer.to_bits(), "buffer unchanged on abort");
+        }
+        assert!(re[1].kinetic_energy.to_bits() == pre.ke[1].to_bits(), "the uninvolved molecule keeps its energy");
+    }
+    vcover!(grown, "decomposed");
+    vcover!(!grown, "aborted");
+    std::mem::forget(s);
+}
+
+/// @h tier=quick bound="wrong stack layouts (too few populations, wrong cardinalities) are errors" unwind=6 cost=5 mem=12 timeout=900
+#[cfg_attr(kani, kani::proof)]
+#[cfg_attr(kani, kani::unwind(6))]
+pub fn h_c20_bad_layout_is_err() {
+    // product population with two individuals where one is expected
+    let (mut s, _pre) = cro_state(2, &[0], &[(8, 1.0), (9, 2.0)], 3);
+    assert!(Component::<TagP>::execute(&OnWallIneffectiveCollisionUpdate::from_params(0.5), &TagP, &mut s).is_err(), "on-wall: two products are an error, not a panic");
+    std::mem::forget(s);
+    // only two populations on the stack
+    let mut pops = Populations::<TagP>::new();
+    pops.push(vec![Individual::new(0u8, obj(1.0))]);
+    pops.push(vec![Individual::new(0u8, obj(1.0))]);
+    let mut s: State<TagP> = State::new();
+    s.insert(EnergyBuffer(0.0));
+    s.insert(ChemicalReaction::<TagP>(vec![Molecule::new(1.0, Individual::new(0u8, obj(1.0)))]));
+    s.insert(sym_random(3));
+    s.insert(pops);
+    assert!(Component::<TagP>::execute(&SynthesisUpdate::from_params(), &TagP, &mut s).is_err(), "synthesis: a stack of two populations is an error");
+    assert!(Component::<TagP>::execute(&DecompositionUpdate::from_params(), &TagP, &mut s).is_err(), "decomposition: a stack of two populations is an error");
+    vcover!(true, "reached");
+    std::mem::forget(s);
+}
